@@ -1,6 +1,7 @@
 package main
 
 import (
+	"go/token"
 	"go/types"
 	"strings"
 
@@ -58,6 +59,17 @@ func checkC19(c *Ctx) {
 	} else {
 		c.anchorMissing("FORMAT-v2-preimage", "v1/v2 writeHashBytes")
 	}
+
+	// ---- (1a) v2 node codec (what is re-read after eviction must be what was written)
+	c.rule("FORMAT-v2-codec", "v2 node encoder / decoder layouts", 2)
+	checkFormat(c, l, "FORMAT-v2-codec", "v2 Node.WriteBytes", l.Func("", "*Node.WriteBytes"), false, []string{
+		"V(subtreeHeight) V(size) B(key) B(hash) ?leaf B(value)",
+		"V(subtreeHeight) V(size) B(key) B(hash) ?inner B(leftNodeKey) B(rightNodeKey)",
+	})
+	checkFormat(c, l, "FORMAT-v2-codec", "v2 MakeNode", l.Func("", "MakeNode"), true, []string{
+		"V(→Node.subtreeHeight) V(→Node.size) B(→Node.key) B(→Node.hash) ?leaf B(→Node.value)",
+		"V(→Node.subtreeHeight) V(→Node.size) B(→Node.key) B(→Node.hash) ?inner B(→unstored) B(→unstored)",
+	})
 
 	// ---- (1b) same rebalancing decision as v1 (both are compared with the AVL rule)
 	c.rule("TABLE-balance", "v2 rebalancing decision over balance factor × child balance factor", 15)
@@ -123,6 +135,48 @@ func checkC19(c *Ctx) {
 		}
 		if n < 5 {
 			c.anchorMissing("TYPESTATE-use-after-put", "fewer than 5 pool hand-back sites")
+		}
+	}
+
+	// ---- (2b) the root is never handed back to the pool while it is the root
+	c.rule("TYPESTATE-root-not-evicted", "leaf eviction after persisting never recycles the tree's root", 2)
+	if sl := l.Func("", "*sqliteBatch.saveLeaves"); sl == nil || ret == nil {
+		c.anchorMissing("TYPESTATE-root-not-evicted", "sqliteBatch.saveLeaves / returnNode")
+	} else {
+		fRootV2 := l.Field("", "Tree", "root")
+		n := 0
+		for _, in := range callsIn(sl, predStatic(ret)) {
+			n++
+			ok := false
+			// dominated by `i != 0` (not the first leaf) or by `leaf.nodeKey != tree.root.nodeKey`
+			for _, b := range sl.Blocks {
+				iff := ifOf(b)
+				if iff == nil {
+					continue
+				}
+				bo, isB := stripTrivial(iff.Cond).(*ssa.BinOp)
+				if !isB || (bo.Op != token.NEQ && bo.Op != token.EQL) {
+					continue
+				}
+				pass := 0
+				if bo.Op == token.EQL {
+					pass = 1
+				}
+				if !edgeDominates(b, pass, in.Block()) {
+					continue
+				}
+				if z, isC := constInt(bo.Y); isC && z == 0 {
+					ok = true // loop index != 0
+				}
+				rx, ry := roleOf(l, bo.X, "", 0), roleOf(l, bo.Y, "", 0)
+				if fRootV2 != nil && (strings.Contains(rx, "root.nodeKey") || strings.Contains(ry, "root.nodeKey")) {
+					ok = true
+				}
+			}
+			c.decide("TYPESTATE-root-not-evicted", "saveLeaves recycles a leaf only if it is not the root", l.ipos(in), ok, "behind `i != 0` or `leaf.nodeKey != root.nodeKey`", "a persisted leaf is returned to the pool without excluding the root: a single-leaf tree keeps pointing at a zeroed node")
+		}
+		if n == 0 {
+			c.anchorMissing("TYPESTATE-root-not-evicted", "no leaf recycling in saveLeaves")
 		}
 	}
 
